@@ -419,6 +419,28 @@ def check_purity(ctx, pid, consulted):
                     ob.require(False, '%s is memoised (@%s): its result for given arguments is whatever an earlier call stored - '
                                'a fresh/independent result is no longer computed, objects are shared between callers' % (key, txt),
                                '%s:%d' % (fi.module.relpath, d.lineno))
+            # a mutable default argument that the function writes to is one object shared by all calls (a hidden cache)
+            a_ = fi.node.args
+            pos_ = list(a_.posonlyargs) + list(a_.args)
+            dflt = dict(zip([x.arg for x in pos_[len(pos_) - len(a_.defaults):]], a_.defaults))
+            dflt.update({x.arg: d for x, d in zip(a_.kwonlyargs, a_.kw_defaults) if d is not None})
+            for pn, d in dflt.items():
+                mutable = isinstance(d, (ast.Dict, ast.List, ast.Set)) or (
+                    isinstance(d, ast.Call) and isinstance(d.func, ast.Name) and d.func.id in ('dict', 'list', 'set', 'defaultdict', 'OrderedDict', 'bytearray'))
+                if not mutable:
+                    continue
+                written = None
+                for n in ast.walk(fi.node):
+                    if isinstance(n, ast.Subscript) and isinstance(n.ctx, (ast.Store, ast.Del)) and isinstance(n.value, ast.Name) and n.value.id == pn:
+                        written = n
+                    if isinstance(n, ast.Call) and isinstance(n.func, ast.Attribute) and isinstance(n.func.value, ast.Name) \
+                            and n.func.value.id == pn and n.func.attr in ('append', 'extend', 'insert', 'pop', 'remove', 'clear', 'update',
+                                                                          'add', 'setdefault', 'popitem', 'sort', 'reverse'):
+                        written = n
+                if written is not None and not any(isinstance(n, ast.Name) and n.id == pn and isinstance(n.ctx, ast.Store) for n in ast.walk(fi.node)):
+                    ob.require(False, '%s writes to its parameter `%s`, whose default value %s is one object created at import and '
+                               'shared by every call that leaves the parameter out: results depend on earlier calls (on other objects, '
+                               'too)' % (key, pn, ast.unparse(d)), '%s:%d' % (fi.module.relpath, written.lineno))
             for n in ast.walk(fi.node):
                 if isinstance(n, (ast.Global, ast.Nonlocal)):
                     ob.require(False, '%s declares %s: it depends on or changes module-level state' % (key, ast.unparse(n)),
